@@ -387,7 +387,7 @@ func (fr *FuncRun) execGo(f *Frame, st *State, x *ssa.Go) {
 	fnVal := fr.val(f, st, c.Value)
 	name := calleeName(c)
 	fr.bumpCallCount(st, "go")
-	fr.callOrdGlobal["go"] = fr.staticOrd(f.fn, c)
+	fr.callOrdGlobal["go"] = goOrdinal(f.fn, x)
 	fr.atCallAsserts(f, st, c, "go", fr.callOrdGlobal["go"], fnVal, args, x.Pos())
 	fr.ghostUpdates(f, st, c, "go", fnVal, args)
 	var target *ssa.Function
@@ -672,4 +672,20 @@ func (fr *FuncRun) builtinCopy(f *Frame, st *State, c *ssa.CallCommon, args []Va
 	fr.heapSet(st, eh, sto(cur, "(s-arr "+d.T+")", na))
 	fr.curWriteFresh = savedFresh
 	return Val{T: n, S: sInt}
+}
+
+// goOrdinal: the position of a go statement among the go statements of its function (block order, from 1).
+func goOrdinal(fn *ssa.Function, g *ssa.Go) int {
+	n := 0
+	for _, b := range fn.Blocks {
+		for _, ins := range b.Instrs {
+			if gi, ok := ins.(*ssa.Go); ok {
+				n++
+				if gi == g {
+					return n
+				}
+			}
+		}
+	}
+	return 0
 }
